@@ -213,6 +213,20 @@ CLAIMS.update({
         technique="VC generation from the real AST over ghost chunk partition (byte views, no string solver) + labelled bounded segmentation sweep",
     ),
 })
+CLAIMS.update({
+    "C18": dict(
+        category="proof",
+        text=("parse_msm is verified for each of the 49 MSM definitions of the real tables - loops over symbolic NSat / NCell cut at "
+              "invariants (the list built so far is the prefix-indexed spec sequence of the indexed attributes), meta fields incl. the "
+              "constellation's epoch field - and for non-MSM, unknown and merely-reserved identities (returns None, raises nothing); "
+              "parse_4076_201 for 1..4 layers (complete: 2-bit field) with the probing while-loop cut at an invariant (any number of "
+              "coefficients, incl. > 99, same two-digit-minimum name format as the parser); ground lemma: the helper's literal lists cover "
+              "every satellite / cell leaf of every MSM definition."),
+        design_ref="DESIGN.md 5/C18",
+        note=BASE_TRUST + "Precondition: the class invariant on the message's attribute set exported by the constructor (C03-L2/L3).",
+        technique="VC generation from the real AST per MSM definition; loop invariants over prefix-indexed spec sequences; z3",
+    ),
+})
 REASONS = {}
 
 checks = []
